@@ -12,12 +12,14 @@ Section WithSchemaPd.
 Variable sch : schema.
 
 Section Generic.
-Variable Q : db -> db -> Prop.
-Hypothesis Q_ins : forall d c e pk cols d' pk', Q d c -> db_insert sch d e pk cols = inr (d', pk') -> Q d' c.
-Hypothesis Q_upd : forall d c e pk asg d', Q d c -> db_update sch d e pk asg = inr d' -> Q d' c.
-Hypothesis Q_del : forall d c e pk d', Q d c -> db_delete sch d e pk = inr d' -> Q d' c.
+(* Q also sees the dirty flag (third argument), so that "a dirty session stays dirty" is an instance too *)
+Variable Q : db -> db -> nat -> Prop.
+Hypothesis Q_ins : forall d c n e pk cols d' pk', Q d c n -> db_insert sch d e pk cols = inr (d', pk') -> Q d' c n.
+Hypothesis Q_upd : forall d c n e pk asg d', Q d c n -> db_update sch d e pk asg = inr d' -> Q d' c n.
+Hypothesis Q_del : forall d c n e pk d', Q d c n -> db_delete sch d e pk = inr d' -> Q d' c n.
+Hypothesis Q_dirty : forall d c n site, Q d c n -> Q d c (match n with O => site | S m => S m end).
 
-Definition Pd (s : sess) : Prop := Q (s_db s) (s_committed s).
+Definition Pd (s : sess) : Prop := Q (s_db s) (s_committed s) (s_dirty s).
 Definition Pdo {A} (r : out A) : Prop := Pd (out_state r).
 Definition Pdp {A} (r : sess * A) : Prop := Pd (fst r).
 Definition Pdp3 {A B} (r : sess * A * B) : Prop := Pd (fst (fst r)).
@@ -38,7 +40,7 @@ Lemma Pd_set_modcoll : forall s x, Pd s -> Pd (set_modcoll s x). Proof. intros s
 Lemma Pd_set_modified : forall s x, Pd s -> Pd (set_modified s x). Proof. intros s x H; exact H. Qed.
 Lemma Pd_set_savedpend : forall s x, Pd s -> Pd (set_savedpend s x). Proof. intros s x H; exact H. Qed.
 Lemma Pd_set_handles : forall s x, Pd s -> Pd (set_handles s x). Proof. intros s x H; exact H. Qed.
-Lemma Pd_mark_dirty : forall s x, Pd s -> Pd (mark_dirty s x). Proof. intros s x H; exact H. Qed.
+Lemma Pd_mark_dirty : forall s x, Pd s -> Pd (mark_dirty s x). Proof. intros s x H. change (Q (s_db s) (s_committed s) (match s_dirty s with O => x | S m => S m end)). exact (Q_dirty (s_db s) (s_committed s) (s_dirty s) x H). Qed.
 Lemma Pd_set_collstat : forall s x, Pd s -> Pd (set_collstat s x). Proof. intros s x H; exact H. Qed.
 Lemma Pd_set_ordsens : forall s x, Pd s -> Pd (set_ordsens s x). Proof. intros s x H; exact H. Qed.
 Lemma Pd_mark_declined : forall s, Pd s -> Pd (mark_declined s). Proof. intros s H; exact H. Qed.
@@ -182,7 +184,7 @@ Proof.
   destruct (negb (status_eqb (o_st ob) SCreated)). pdauto.
   cbv zeta. destruct (db_insert sch (s_db s) (o_ent ob) (o_pk ob) (row_of_obj sch s ob)) as [er|[d' newpk]] eqn:I.
   destruct er; pdauto.
-  assert (H1 : Pd (set_db s d')). { exact (Q_ins _ _ _ _ _ _ _ H I). }
+  assert (H1 : Pd (set_db s d')). { exact (Q_ins _ _ _ _ _ _ _ _ H I). }
   pdauto.
 Qed.
 Hint Resolve Pd_save_created : pd.
@@ -195,7 +197,7 @@ Proof.
   cbv zeta. destruct (existsb _ _). pdauto.
   destruct (written_asg sch s ob) as [|p asg]. pdauto. destruct (o_pk ob) as [pk|]; [|pdauto].
   destruct (db_update sch (s_db s) (o_ent ob) pk (p :: asg)) as [er|d'] eqn:I. destruct er; pdauto.
-  assert (H1 : Pd (set_db s d')). { exact (Q_upd _ _ _ _ _ _ H I). }
+  assert (H1 : Pd (set_db s d')). { exact (Q_upd _ _ _ _ _ _ _ H I). }
   pdauto.
 Qed.
 Hint Resolve Pd_save_updated : pd.
@@ -207,7 +209,7 @@ Proof.
   destruct (negb (status_eqb (o_st ob) SMarked)). pdauto.
   destruct (o_pk ob) as [pk|]; [|pdauto].
   destruct (db_delete sch (s_db s) (o_ent ob) pk) as [er|d'] eqn:I. pdauto.
-  assert (H1 : Pd (set_db s d')). { exact (Q_del _ _ _ _ _ H I). }
+  assert (H1 : Pd (set_db s d')). { exact (Q_del _ _ _ _ _ _ H I). }
   pdauto.
 Qed.
 Hint Resolve Pd_save_deleted : pd.
@@ -469,15 +471,16 @@ Proof. split. exact Pd_flush. split. exact Pd_step_plain. exact Pd_keep_declined
 End Generic.
 
 (* ---------------------------------------------------------------- instance 1: the key constraints hold in both databases *)
-Definition Qok (d c : db) : Prop := db_ok sch d /\ db_ok sch c.
+Definition Qok (d c : db) (_ : nat) : Prop := db_ok sch d /\ db_ok sch c.
 Definition Pd_ok (s : sess) : Prop := Pd Qok s.
 
 Lemma Qok_generic : (forall s, Pd_ok s -> Pd_ok (out_state (flush sch s))) /\ (forall s op, is_txn_op op = false -> Pd_ok s -> Pd_ok (fst (step sch s op))) /\ (forall s0 s1, Pd_ok s1 -> Pd_ok (keep_declined s0 s1)).
 Proof.
   apply (Pd_generic Qok).
-  - intros d c e pk cols d' pk' [A B] I. split; [|exact B]. exact (db_insert_ok _ _ _ _ _ _ _ A I).
-  - intros d c e pk asg d' [A B] I. split; [|exact B]. exact (db_update_ok _ _ _ _ _ _ A I).
-  - intros d c e pk d' [A B] I. split; [|exact B]. exact (db_delete_ok _ _ _ _ _ A I).
+  - intros d c n e pk cols d' pk' [A B] I. split; [|exact B]. exact (db_insert_ok _ _ _ _ _ _ _ A I).
+  - intros d c n e pk asg d' [A B] I. split; [|exact B]. exact (db_update_ok _ _ _ _ _ _ A I).
+  - intros d c n e pk d' [A B] I. split; [|exact B]. exact (db_delete_ok _ _ _ _ _ A I).
+  - intros d c n site H. exact H.
 Qed.
 
 Lemma Pd_ok_reset : forall d, db_ok sch d -> Pd_ok (reset_sess d).
@@ -512,7 +515,7 @@ Theorem transaction_keys_unique_all_histories : forall ops, db_ok sch (s_db (run
 Proof. intros ops. apply (Pd_ok_run ops). Qed.
 
 (* ---------------------------------------------------------------- instance 2: the committed database is not touched *)
-Definition Qc (c0 : db) (d c : db) : Prop := c = c0.
+Definition Qc (c0 : db) (d c : db) (_ : nat) : Prop := c = c0.
 
 Lemma Qc_generic : forall c0, (forall s, s_committed s = c0 -> s_committed (out_state (flush sch s)) = c0) /\ (forall s op, is_txn_op op = false -> s_committed s = c0 -> s_committed (fst (step sch s op)) = c0) /\ (forall s0 s1, s_committed s1 = c0 -> s_committed (keep_declined s0 s1) = c0).
 Proof. intros c0. apply (Pd_generic (Qc c0)); unfold Qc; intros; assumption. Qed.
@@ -533,6 +536,17 @@ Proof.
   intros s e D R. destruct (Qc_generic (s_committed s)) as (F & _ & _). specialize (F s eq_refl).
   unfold commit_op in *. destruct (flush sch s) as [s1 u|s1 er]; cbn [fst snd out_state] in *. discriminate R.
   unfold keep_declined. destruct (s_declined s1); cbn; auto.
+Qed.
+(* ---------------------------------------------------------------- instance 3: a dirty session stays dirty (until the cache is reset) *)
+Definition Qd (_ _ : db) (n : nat) : Prop := n <> O.
+
+Lemma dirty_sticky : (forall s, s_dirty s <> O -> s_dirty (out_state (flush sch s)) <> O) /\
+  (forall s o, is_txn_op o = false -> s_dirty s <> O -> s_dirty (fst (step sch s o)) <> O).
+Proof.
+  assert (G : (forall s, Pd Qd s -> Pdo Qd (flush sch s)) /\ (forall s o, is_txn_op o = false -> Pd Qd s -> Pd Qd (fst (step sch s o))) /\
+              (forall s0 s1, Pd Qd s1 -> Pd Qd (keep_declined s0 s1))).
+  { apply (Pd_generic Qd); unfold Qd; intros; auto. destruct n; [contradiction|discriminate]. }
+  destruct G as (F & S & _). split. exact F. exact S.
 Qed.
 End WithSchemaPd.
 
